@@ -142,3 +142,11 @@ CHECKS["C14"] = dict(
     outside=["other (media, FEC) counts than the listed grid", "payloads longer than 2 bytes / header extensions / padding at byte level", "the encoder interceptor wiring"],
     assumptions=["sync.Pool LIFO model for the scratch buffer"],
 )
+
+CHECKS["C19"] = dict(
+    jobs=[dict(pkg="pkg/stats", entry="HC19Recount", params=dict(events=2), require_covers=["incoming rtp counted", "XR first in a compound packet"], thorough=dict(params=dict(events=3), timeout=3400))],
+    bounds=dict(quick="one recorder (SSRC 100), 2 events chosen from {incoming RTP, outgoing RTP, incoming RTCP compound of 2 packets out of NACK/PLI/FIR/XR, outgoing RTCP NACK/PLI/FIR}, each addressed to the stream or to another SSRC (symbolic), sequence numbers base+-3 for any base incl. wrap, payload length 0..1460; counters compared with a recount",
+                thorough="3 events"),
+    outside=["RR/SR/DLRR derived figures (RTT, remote loss, jitter)", "the interceptor fan-out and the Queue*/channel plumbing", "a stream whose first sequence number is below the reordering distance (unwrapper corner)", "FIR whose media SSRC field is 0 (RFC 5104 form)"],
+    assumptions=["pion/logging no-op"],
+)
